@@ -128,6 +128,8 @@ def probe_questions(db, category, unit):
     for fn in (
         lambda: db.CheckCategoryUnit(category, unit), lambda: ObtainQuantity(OrderedDict([(category, [unit, 2])])), lambda: Scalar(1.0, unit, category), lambda: db.GetDefaultCategory(unit),
         lambda: Scalar(1.0, unit), lambda: db.GetValidUnits(category), lambda: db.GetInfo(category, unit), lambda: db.GetQuantityType(unit), lambda: ObtainQuantity(unit), lambda: db.GetDefaultUnit(category),
+        # "everything there is": the overloads without a quantity type, asked twice (what they hand out is the caller's)
+        lambda: db.GetUnits(), lambda: db.GetInfos(), lambda: db.GetUnits().append("not a unit"), lambda: db.GetInfos().clear(), lambda: db.GetQuantityTypes().append("not a type"), lambda: db.GetUnits(),
     ):  # fmt: skip
         try:
             fn()
@@ -135,8 +137,28 @@ def probe_questions(db, category, unit):
             pass
 
 
-def run_call(db, call):
+class Symbol(str):
+    """a unit symbol as an application may hold it: an instance of a subclass of str (an element of a numpy string array is one too)"""
+
+
+def strict(call):
+    """the call as barril gets it: 'AddUnit:symbol as a str subclass' / ':symbol as numpy.str_' hand the symbol over as such an object"""
     name, args, kw = call
+    if ":" in name:
+        import numpy as np
+
+        wrap = np.str_ if "numpy" in name else Symbol
+        name = name.split(":")[0]
+        args = tuple(args[:2]) + (wrap(args[2]),) + tuple(args[3:])
+    return name, args, kw
+
+
+def plain(call):
+    return (call[0].split(":")[0], call[1], call[2])
+
+
+def run_call(db, call):
+    name, args, kw = strict(call)
     if name == "Probe":
         probe_questions(db, *args)
         return "accept", None
@@ -357,8 +379,15 @@ class Runner:
                 prefix = tuple(ids[: i + 1]) if ids is not None else None
                 need = check_all or prefix not in self.checked_prefixes
                 before = (snapshot.registry(db), snapshot.registry_getters_safe(db)) if need else None
-                exp = m.apply(call)
-                got, err = run_call(db, call)
+                if ":" in call[0]:
+                    # a symbol that is an instance of a str subclass: the library may refuse it (then nothing changes) or take it for
+                    # the str it is (then the model registers the plain symbol) - either way everything registered must be usable
+                    got, err = run_call(db, call)
+                    exp = m.apply(plain(call)) if got == "accept" else "reject"
+                    ctx.count("str-subclass symbols %sed" % got)
+                else:
+                    exp = m.apply(call)
+                    got, err = run_call(db, call)
                 if not need:
                     continue
                 if prefix is not None:
@@ -478,6 +507,15 @@ def clash_histories():
                 h += [("Probe", ("vol", "1000ft3"), {}), ("Probe", ("volume", "1000ft3"), {})]
             h += [("AddUnitBase", ("volume", "old symbol as a base", "1000ft3"), {}) if as_base else ("AddUnit", ("volume", "old symbol", "1000ft3", "%f*28.0", "%f/28.0"), {}), ("Probe", ("vol", "1000ft3"), {}),
                   ("AddCategory", ("vol2", "volume"), {"valid_units": ["m3", "1000ft3"]})]
+            out.append(h)
+    # a unit symbol handed over as an instance of a str subclass (numpy.str_, an application's own class): refused, or taken for the
+    # str it is - a registered unit and the categories whose default unit it becomes build Scalars like any other
+    for how in ("symbol as a str subclass", "symbol as numpy.str_"):
+        for base_first in (True, False):
+            h = [("AddUnitBase:" + how, ("length", "metres", "m"), {})] if base_first else [("AddUnitBase", ("length", "metres", "m"), {})]
+            h += [("AddUnit:" + how, ("length", "centimetres", "cm", "%f*100.0", "%f/100.0"), {}), ("AddCategory", ("length", "length"), {}), ("AddCategory", ("depth", "length"), {"valid_units": ["cm"], "default_unit": "cm"}),
+                  ("AddCategory", ("depth2",), {"from_category": "depth"}), ("Probe", ("depth", "cm"), {}), ("AddUnit:" + how, ("length", "centimetres again", "cm", "%f*100.0", "%f/100.0"), {}),
+                  ("AddUnit", ("length", "kilometres", "km", "%f/1000.0", "%f*1000.0"), {"default_category": "depth"})]  # fmt: skip
             out.append(h)
     return out
 
